@@ -185,6 +185,27 @@ pub fn fontinfo_variant(f: &mut Font, n: u32) {
             let g = Guideline::new(Line::Vertical(f64::NAN), None, None, None);
             f.font_info.guidelines.get_or_insert_with(Default::default).push(g);
         }
+        n if n >= 20 => {
+            // an out-of-range angle (what the WRITER refuses) combined with every other guideline attribute and position:
+            // n = 20 + 8 * angle + shape
+            let a = [400.0, f64::NAN, -1e-9, f64::INFINITY][((n - 20) / 8) as usize % 4];
+            let id = |s: &str| Some(norad::Identifier::new(s).unwrap());
+            let nm = |s: &str| Some(Name::new(s).unwrap());
+            let col = || Some(norad::Color::new(0.0, 1.0, 0.0, 1.0).unwrap());
+            let bad = |name, color, ident| Guideline::new(Line::Angle { x: 1.0, y: 2.0, degrees: a }, name, color, ident);
+            let good = |ident| Guideline::new(Line::Angle { x: 0.0, y: 0.0, degrees: 10.0 }, None, None, ident);
+            let gs: Vec<Guideline> = match (n - 20) % 8 {
+                0 => vec![bad(None, None, id("g1"))],
+                1 => vec![bad(nm("n"), None, None)],
+                2 => vec![bad(None, col(), None)],
+                3 => vec![bad(nm("n"), col(), id("g1"))],
+                4 => vec![good(id("a1")), bad(None, None, None)],
+                5 => vec![bad(None, None, id("b1")), good(id("a1"))],
+                6 => vec![good(id("a1")), bad(None, None, id("b1")), good(None)],
+                _ => vec![good(None), good(id("a1")), bad(nm("last"), None, id("z9"))],
+            };
+            f.font_info.guidelines.get_or_insert_with(Default::default).extend(gs);
+        }
         11 => f.font_info.open_type_head_created = Some("2020/01/01 24:00:00".into()),
         12 => f.font_info.open_type_head_created = Some("2020/12/31 23:59:59".into()),
         _ => {}
